@@ -64,8 +64,8 @@ func runC17(r *vrt.Run, c C17Case) (o c17Out) {
 		return
 	}
 	var accepted []byte
-	closed := false       // a Close returned nil
-	errReported := false  // some call returned an error after a fault
+	closed := false      // a Close returned nil
+	errReported := false // some call returned an error after a fault
 	off := 0
 	lastWritten := uint64(0)
 	opsAfterClose, zeroLen, crossBatch := 0, 0, false
@@ -313,7 +313,7 @@ func c17Eval(r *vrt.Run, c C17Case) c17Out {
 func drawC17(t *rapid.T, withFaults bool) C17Case {
 	var c C17Case
 	c.Cfg = gen.Config{Transform: rapid.SampledFrom([]string{"NONE", "LZ", "RLT+ZRLT", "TEXT", "BWT"}).Draw(t, "tr"),
-		Entropy: rapid.SampledFrom([]string{"NONE", "HUFFMAN", "ANS0", "FPAQ"}).Draw(t, "en"),
+		Entropy:   rapid.SampledFrom([]string{"NONE", "HUFFMAN", "ANS0", "FPAQ"}).Draw(t, "en"),
 		BlockSize: gen.DrawBlockSize(t, 4096, "bs"), Jobs: uint(rapid.IntRange(1, 4).Draw(t, "jobs")),
 		Checksum: rapid.SampledFrom([]uint{0, 32, 64}).Draw(t, "ck"), HintClass: "absent"}
 	bs := int(c.Cfg.BlockSize)
